@@ -297,7 +297,8 @@ pub fn gen_token(r: &mut Rng) -> String {
     r.string_from("ABCDEFGHIJKLMNOPQRSTUVWXYZabcdefghijklmnopqrstuvwxyz0123456789+/=", n)
 }
 
-/// A request instant: mostly ordinary, sometimes near midnight / year ends / with nanoseconds.
+/// A request instant: mostly ordinary, sometimes near midnight / year ends / with nanoseconds, one in ten anywhere in
+/// the years 0002–9996.
 pub fn gen_instant(r: &mut Rng) -> Inst {
     let base = match r.below(10) {
         0 => Inst::from_civil(2015, 8, 30, 12, 36, 0, 0),
@@ -305,6 +306,12 @@ pub fn gen_instant(r: &mut Rng) -> Inst {
         2 => Inst::from_civil(2023, 12, 31, 23, 59, 59, 0),
         3 => Inst::from_civil(2025, 1, 1, 0, 0, 0, 0),
         4 => Inst::from_civil(1999, 12, 31, 12, 0, 0, 0),
+        // almost any instant a four-digit year can name (years 0002–9996; the reference model is silent at the very ends of
+        // the range, which C08 visits): a server replaying an archive, a test clock
+        5 => Inst {
+            s: r.range(Inst::from_civil(2, 1, 2, 0, 0, 0, 0).s, Inst::from_civil(9996, 12, 30, 0, 0, 0, 0).s),
+            ns: 0,
+        },
         _ => Inst {
             s: r.range(946684800, 4102444800),
             ns: 0,
